@@ -114,6 +114,45 @@ def rule_keyword_sets(ctx):
                          "names reserved in this dialect are not quoted" % (dialect_name, missing, extra))
 
 
+# reserved words every edition of the dialect's reference lists (spot check against the vendors' tables; the DB2 ones are
+# the words whose entries carried footnote digits of the IBM table, F38)
+WELL_KNOWN_KEYWORDS = {
+    "ANSI": ["select", "table", "order", "group", "first", "last", "next"],
+    "PL": ["select", "table", "order", "overlaps", "group"],
+    "Transact": ["select", "table", "order", "group", "index"],
+    "DB2": ["select", "table", "order", "group", "first", "last", "next", "old", "prior", "period", "organization", "sysdate",
+            "systimestamp", "currval", "nextval", "end-exec"],
+}
+
+
+def rule_keyword_entries(ctx):
+    """O19.3b: every entry of a keyword list is ONE word (no comma, no blank - "order,overlaps" quotes neither word), and
+    the well-known reserved words of the dialect are entries."""
+    model = ctx.model
+    ctx.res.minimum("O19.3b", 8)
+    for dialect_name in DIALECTS:
+        words = own_keywords(model, dialect_name)
+        where = where_of(model, DIALECTS[dialect_name] + ".__init__")
+        if words is None:
+            continue  # reported by O19.3
+        broken = sorted(word for word in words if "," in word or " " in word or word != word.strip() or not word)
+        what = "%s keyword list: every entry is one word" % dialect_name
+        if broken:
+            ctx.res.fail("O19.3b", what, "%s.__init__:O19.3b:entries" % DIALECTS[dialect_name].replace("cutplace.", ""), where,
+                         "entries %r of the %s keyword list are not single words: the words in them are never recognised as keywords and stay "
+                         "unquoted" % (broken, dialect_name))
+        else:
+            ctx.res.ok("O19.3b", what, True)
+        missing = [word for word in WELL_KNOWN_KEYWORDS.get(dialect_name, []) if word not in words]
+        what = "%s keyword list holds the well-known reserved words" % dialect_name
+        if missing:
+            ctx.res.fail("O19.3b", what, "%s.__init__:O19.3b:missing" % DIALECTS[dialect_name].replace("cutplace.", ""), where,
+                         "reserved words %r are not entries of the %s keyword list (look for entries with a digit or punctuation glued on): "
+                         "fields with these names are emitted unquoted" % (missing, dialect_name))
+        else:
+            ctx.res.ok("O19.3b", what, True)
+
+
 def rule_columns(ctx):
     model = ctx.model
     ctx.res.minimum("O19.1", 1)
@@ -220,7 +259,13 @@ def rule_integer_types(ctx):
                     kind = "integer type %s printed with a size" % type_name
                     detail = "%s%s (the type name is missing from _INT_TYPES)" % (type_name, sizes)
                 elif (dialect_name, type_name) in UNDECIDED_CAPACITY:
-                    pass
+                    # how much an ANSI INTEGER holds is implementation-defined - but no implementation's integer type goes
+                    # beyond 64 bits, so a limit outside the 64-bit range needs a wider type (decimal(n)) in any case;
+                    # Oracle's int is number(38)
+                    widest = (-(2 ** 63), 2 ** 63 - 1) if dialect_name == "ANSI" else (-(10 ** 38) + 1, 10 ** 38 - 1)
+                    if lower < widest[0] or upper > widest[1]:
+                        kind = "%s chosen for a range beyond what any %s integer type stores" % (type_name, dialect_name)
+                        detail = "%s cannot store the range limit %s" % (type_name, _show(lower if lower < widest[0] else upper))
                 elif lower < low or upper > high:
                     kind = "%s chosen for a range it cannot store" % type_name
                     detail = "%s cannot store the range limit %s" % (type_name, _show(lower if lower < low else upper))
@@ -329,4 +374,4 @@ def rule_limits_of_ranges(ctx):
 
 from .common import rule_module_state  # noqa: E402
 
-RULES = [rule_keyword_sets, rule_columns, rule_integer_types, rule_decimal_and_text, rule_limits_of_ranges, rule_module_state]
+RULES = [rule_keyword_sets, rule_keyword_entries, rule_columns, rule_integer_types, rule_decimal_and_text, rule_limits_of_ranges, rule_module_state]
